@@ -73,6 +73,51 @@ def work(task):
     return acc
 
 
+def work_orders(task):
+    """every order of up to 3 calls among {u64_to_hex(n), hex_to_u64(lower), hex_to_u64(UPPER), hex_to_u64(zero-padded)} on a value never
+    seen before in this process: the text form must not depend on which spelling was parsed first"""
+    import a5
+    import itertools
+    acc = common.Acc()
+    base, count = task
+    ops = ('fmt', 'lower', 'upper', 'padded')
+    seqs = [s for n in (1, 2, 3) for s in itertools.permutations(ops, n)]
+    i = 0
+    for rep in range(count):
+        for seq in seqs:
+            # distinct value per sequence, with letters a-f in it and above 2^32
+            n = (base + i * 0x10000000f0001) & M64 | 0xabcdef0000000000
+            i += 1
+            want = '%x' % n
+            acc.n['evaluations'] += 1
+            acc.strata['op_orders'] += 1
+            bad = None
+            for op in seq:
+                try:
+                    if op == 'fmt':
+                        got = a5.u64_to_hex(n)
+                        ok = got == want
+                    elif op == 'lower':
+                        got = a5.hex_to_u64(want)
+                        ok = got == n
+                    elif op == 'upper':
+                        got = a5.hex_to_u64(want.upper())
+                        ok = got == n
+                    else:
+                        got = a5.hex_to_u64('00' + want)
+                        ok = got == n
+                except Exception as e:
+                    got, ok = repr(e), False
+                if not ok:
+                    bad = (op, got)
+                    break
+            if bad:
+                acc.violation(f'c19:order:{"/".join(seq)}', f'call order {seq} on {n:#x}: {bad[0]} gave {bad[1]!r} (expected {want!r} / {n})', {'n': n, 'order': list(seq)})
+            else:
+                acc.n['nontrivial'] += 1
+    return acc
+
+
 def run(tier, t0):
     acc = common.Acc()
     tasks = [('lane', (lane, bg)) for lane in range(4) for bg in (0, M64, 0x5555555555555555, 0x0123456789abcdef)]
@@ -82,11 +127,12 @@ def run(tier, t0):
     # deep ids: marker at every position
     tasks = common.rotate(tasks, common.seed())
     common.pmap_merge(work, tasks, acc)
+    common.pmap_merge(work_orders, [(0x1234567 * (j + 1) + common.seed(), 4) for j in range(8)], acc)
     acc.sample({'n': hex(0xffff000000000001), 'string': 'ffff000000000001'})
     acc.sample({'n': hex(rm.encode((11, 4) + (3,) * 28)), 'kind': 'resolution 29 cell id'})
     rule = (f'all 65536 values of each 16-bit lane over 4 backgrounds (0, all-ones, 0x5555.., 0x0123..), single bits, complements, 2^k-1, 2^k+1, every nibble value at every '
             f'position, and every valid cell id of resolutions -1..{R}; non-trivial = values above 2^32 (where all real ids live) that round-tripped and re-parsed from '
-            'upper-case and zero-padded spellings')
+            'upper-case and zero-padded spellings; plus every order of up to 3 format/parse calls on fresh values')
     return common.finish(PID, LEVEL, tier, acc, t0, rule, [
         '2^64 values cannot be enumerated; the conversion is digit-wise, so lanes x backgrounds plus all single-digit perturbations is the bounded space',
     ], exhaustive=False)
@@ -95,5 +141,8 @@ def run(tier, t0):
 def replay(case):
     import a5
     acc = common.Acc()
+    if 'order' in case:
+        acc = work_orders((int(case['n']), 1))
+        return [(k, w) for k, w, _ in acc.violations]
     check_value(acc, a5, int(case['n']))
     return [(k, w) for k, w, _ in acc.violations]
